@@ -351,6 +351,10 @@ func (t *TermBuilder) Term(v ssa.Value) string {
 		}
 		return "φ" + x.Name()
 	case *ssa.MakeSlice:
+		// make([]byte, 0, n): the empty byte string (a buffer to append to)
+		if c, ok := x.Len.(*ssa.Const); ok && c.Value != nil && c.Value.ExactString() == "0" {
+			return `""`
+		}
 		return "φmake" + x.Name()
 	case *ssa.Call:
 		return t.callTerm(x)
@@ -484,6 +488,14 @@ func (t *TermBuilder) callTerm(c *ssa.Call) string {
 		return concatTerm(parts)
 	case name == "encoding/hex.EncodeToString":
 		return "hex(" + t.Term(c.Call.Args[0]) + ")"
+	case name == "encoding/hex.AppendEncode" && len(c.Call.Args) == 2:
+		return concatTerm([]string{t.Term(c.Call.Args[0]), "hex(" + t.Term(c.Call.Args[1]) + ")"})
+	case (name == "strconv.AppendInt" || name == "strconv.AppendUint") && len(c.Call.Args) == 3 && isConstInt(c.Call.Args[2], 10):
+		return concatTerm([]string{t.Term(c.Call.Args[0]), "dec(" + t.Term(c.Call.Args[1]) + ")"})
+	case (name == "strconv.FormatInt" || name == "strconv.FormatUint") && len(c.Call.Args) == 2 && isConstInt(c.Call.Args[1], 10):
+		return "dec(" + t.Term(c.Call.Args[0]) + ")"
+	case name == "strconv.Itoa" && len(c.Call.Args) == 1:
+		return "dec(" + t.Term(c.Call.Args[0]) + ")"
 	case strings.HasPrefix(name, "crypto/") && strings.Contains(name, ".Sum") && len(c.Call.Args) == 1:
 		// one-shot digest: sha256.Sum256(x) ≡ h := sha256.New(); h.Write(x); h.Sum(nil)
 		pkg := name[strings.LastIndex(name, "/")+1 : strings.LastIndex(name, ".")]
@@ -588,4 +600,13 @@ func (t *TermBuilder) callTerm(c *ssa.Call) string {
 		short = short[i+1:]
 	}
 	return short + "(" + strings.Join(as, ",") + ")"
+}
+
+func isConstInt(v ssa.Value, n int64) bool {
+	c, ok := v.(*ssa.Const)
+	if !ok || c.Value == nil {
+		return false
+	}
+	i, exact := constant.Int64Val(c.Value)
+	return exact && i == n
 }
